@@ -251,6 +251,9 @@ func init() {
 			tn = tn[i+1:]
 		}
 		ng[key] = guardDecl{mu: mu, name: tn + "." + field}
+		if mv, ok := st.load(obj.V.(PtrVal).Field(idx)).(MapVal); ok && mv.Obj != 0 {
+			ng[fmt.Sprintf("map:%d", mv.Obj)] = guardDecl{mu: mu, name: tn + "." + field}
+		}
 		st.guards = ng
 		return nil, ctlRet
 	})
